@@ -12,8 +12,8 @@ type WireStep struct {
 type SSHScript struct {
 	User     string       `json:"user"`
 	Pass     string       `json:"pass"`
-	Channel  string       `json:"channel"`          // channel type to open ("session", "direct-tcpip", ...)
-	Extra    string       `json:"extra,omitempty"`  // hex extra data for the channel open
+	Channel  string       `json:"channel"`         // channel type to open ("session", "direct-tcpip", ...)
+	Extra    string       `json:"extra,omitempty"` // hex extra data for the channel open
 	Requests []SSHRequest `json:"requests"`
 	Data     string       `json:"data,omitempty"` // hex, written to the channel after the requests
 }
